@@ -29,6 +29,17 @@ def resets_attr_always(ctx, callee, attr, _depth=0):
     return True
 
 
+def _stateless(e, fi):
+    """the expression is built from this call's parameters and constants only (no object state, no other locals)"""
+    prm = set(fi.params) - {"self"}
+    for n in walk_no_nested(e):
+        if isinstance(n, ast.Name) and isinstance(n.ctx, ast.Load) and n.id not in prm and n.id not in ("len", "max", "min", "list", "dict", "set", "int", "str", "bool", "tuple", "True", "False", "None"):
+            return False
+        if isinstance(n, (ast.Call,)) and not isinstance(n.func, ast.Name):
+            return False
+    return True
+
+
 def reset_nodes(cfg, fi, attr, ctx=None, _depth=0):
     """CFG nodes that start ``self.<attr>`` afresh: rebind to a fresh value, .clear(), or a call of a
     method of the same object that does so on all of its paths."""
@@ -47,7 +58,7 @@ def reset_nodes(cfg, fi, attr, ctx=None, _depth=0):
             continue
         if isinstance(a, ast.Assign):
             for t in a.targets:
-                if is_self_attr(t, attr) and q.is_fresh_expr(a.value):
+                if is_self_attr(t, attr) and (q.is_fresh_expr(a.value) or _stateless(a.value, fi)):
                     out.append(n)
         elif isinstance(a, ast.Expr) and isinstance(a.value, ast.Call) and isinstance(a.value.func, ast.Attribute) \
                 and a.value.func.attr == "clear" and is_self_attr(a.value.func.value, attr):
@@ -150,8 +161,8 @@ def scratch_rule(ctx, r, entry):
         else:
             n, why = bad
             r.fail(entry, n.ast, "self.%s not reset before: %s" % (attr, why),
-                   "parser attribute self.%s is written during a parse but %s can be reached from the start of %s "
-                   "without the attribute having been re-initialised: values of the previous parse leak into this one"
+                   "attribute self.%s is per-call scratch state (written under the entry) but %s can be reached from the start of %s "
+                   "without the attribute having been re-initialised: values of the previous call leak into this one"
                    % (attr, why, entry.short), entry=entry.qualname,
                    first_use="%s:%d" % (entry.module.path, getattr(n.ast, "lineno", 0)))
 
@@ -312,4 +323,33 @@ def run(ctx):
                     r.fail(init, o.node, norm(o.node), "%s consumes the caller's argv list in place" % init.short)
                 else:
                     r.ok("%s: argv copied before pop" % init.short)
+
+    # ---------------------------------------------------------------- R4
+    r = ctx.rule("C05-R4", "READONLY", "Command.parse is a pure pass-through to the configured parser: it stores nothing on the command "
+                 "(a remembered result would be keyed by less than tokens + format + leniency) and returns the parser's "
+                 "result of this call on every path", reference=1)
+    cmd = ctx.cls("clikit.api.command.command.Command")
+    cparse = cmd.methods.get("parse")
+    ctx.require(cparse is not None, "Command.parse missing")
+    own = []
+    for n in walk_no_nested(cparse.node):
+        if is_self_attr(n) and isinstance(getattr(n, "ctx", None), (ast.Store, ast.Del)):
+            own.append(n)
+    pcalls = [c for c in q.calls(cparse) if isinstance(c.func, ast.Attribute) and c.func.attr == "parse"]
+    if own:
+        for n in own:
+            r.fail(cparse, n, "stores self.%s" % n.attr, "Command.parse keeps self.%s between calls: the next parse on this command can be answered from what an earlier "
+                   "one left there (other leniency, raw args edited in place) instead of from its own inputs" % n.attr)
+    elif not pcalls:
+        r.fail(cparse, cparse.node, "no parser call", "Command.parse does not call the configured parser")
+    else:
+        rets = q.returns(cparse)
+        direct = [x for x in rets if x.value in pcalls]
+        holders = {t.id for n in walk_no_nested(cparse.node) if isinstance(n, ast.Assign) and n.value in pcalls for t in n.targets if isinstance(t, ast.Name)}
+        via = [x for x in rets if isinstance(x.value, ast.Name) and x.value.id in holders]
+        if rets and len(direct) + len(via) == len(rets):
+            r.ok("Command.parse: stateless, returns %s" % norm(pcalls[0])[:60])
+        else:
+            bad = [x for x in rets if x not in direct and x not in via]
+            r.fail(cparse, bad[0] if bad else cparse.node, norm(bad[0]) if bad else "no return", "Command.parse can return something else than the parser's result for this call")
     return ctx.results
